@@ -41,8 +41,8 @@ var extra = []lww.Batch{
 	{I("b", 3), D("a"), S(6)},
 	{I("d", 1), S(7)},
 }
-var ids = []string{"a", "b", "c", "d", "e", "f", "zz"}
-var keys = []string{"seq"}
+var ids = []string{"a", "b", "c", "d", "e", "f", "x", "zz"}
+var keys = []string{"seq", "w2"}
 
 func modelAfter(wl []lww.Batch, q int, withExtra int) *lww.Model {
 	if wl == nil {
@@ -59,6 +59,7 @@ func modelAfter(wl []lww.Batch, q int, withExtra int) *lww.Model {
 }
 
 type cfg struct {
+	second  lww.Batch   // two-writer scenario: the batch of the second writer (deletes document "x" of the setup batch, sets internal key "w2")
 	wl      []lww.Batch // workload (default: workload)
 	name    string
 	conf    map[string]interface{}
@@ -453,7 +454,38 @@ func recoverImage(im *drv.Image, override map[string][]byte, drop map[string]boo
 		if v != nil {
 			q, _ = strconv.Atoi(string(v))
 		}
-		if bad := modelAfter(k.wl, q, 0).Check(idx, ids, keys); len(bad) > 0 {
+		w2 := ""
+		model := func(nExtra int) *lww.Model { return modelAfter(k.wl, q, nExtra) }
+		if k.second != nil {
+			// the second writer's batch is all-or-nothing too: document x gone <=> internal key w2 set
+			d, _ := idx.Document("x")
+			v2, _ := idx.GetInternal([]byte("w2"))
+			applied := d == nil
+			if applied != (v2 != nil) {
+				res = fmt.Sprintf("q=%d MISMATCH: the second writer's batch is half applied (document x present=%v, internal key w2 set=%v)", q, d != nil, v2 != nil)
+				idx.Close()
+				return
+			}
+			w2 = " w2=0"
+			if applied {
+				w2 = " w2=1"
+			}
+			model = func(nExtra int) *lww.Model {
+				m := lww.New()
+				m.Apply(twoSetup)
+				for j := 0; j < q; j++ {
+					m.Apply(k.wl[j])
+				}
+				if applied {
+					m.Apply(k.second)
+				}
+				for j := 0; j < nExtra; j++ {
+					m.Apply(extra[j])
+				}
+				return m
+			}
+		}
+		if bad := model(0).Check(idx, ids, keys); len(bad) > 0 {
 			res = fmt.Sprintf("q=%d MISMATCH: %s", q, strings.Join(bad, "; "))
 			idx.Close()
 			return
@@ -462,7 +494,7 @@ func recoverImage(im *drv.Image, override map[string][]byte, drop map[string]boo
 			if err := idx.Close(); err != nil {
 				res = fmt.Sprintf("q=%d CLOSE-ERROR: %v", q, err)
 			} else {
-				res = fmt.Sprintf("q=%d ok", q)
+				res = fmt.Sprintf("q=%d%s ok", q, w2)
 			}
 			return
 		}
@@ -474,7 +506,7 @@ func recoverImage(im *drv.Image, override map[string][]byte, drop map[string]boo
 				return
 			}
 		}
-		want := modelAfter(k.wl, q, len(extra))
+		want := model(len(extra))
 		if bad := want.Check(idx, ids, keys); len(bad) > 0 {
 			res = fmt.Sprintf("q=%d MISMATCH-AFTER-WRITES: %s", q, strings.Join(bad, "; "))
 			idx.Close()
@@ -494,7 +526,7 @@ func recoverImage(im *drv.Image, override map[string][]byte, drop map[string]boo
 		}
 		idx2.Close()
 		if res == "" {
-			res = fmt.Sprintf("q=%d ok", q)
+			res = fmt.Sprintf("q=%d%s ok", q, w2)
 		}
 	})
 	if werr != "" {
@@ -568,6 +600,101 @@ func after(c *drv.Ctx) {
 			c.Fail("future-batch", "crash at %s: recovered batch %d > submitted %d", im.Label, q, submitted)
 			return
 		}
+		if k.second != nil {
+			applied := strings.Contains(res, "w2=1")
+			if im.Tag["acked2"] == 1 && !applied {
+				c.Fail("acked-batch-lost", "crash at %s: the second writer's batch had been acknowledged (its call had returned), the recovered index (first writer at batch %d) does not contain it", im.Label, q)
+				return
+			}
+			if im.Tag["submitted2"] == 0 && applied {
+				c.Fail("future-batch", "crash at %s: the second writer's batch is in the recovered index before it was submitted", im.Label)
+				return
+			}
+		}
+	}
+}
+
+// ---- two concurrent writers in safe mode: the first writer's batches are persisted one by one; a
+// second, low-priority writer submits one delete-only batch (a handful of scheduling steps) at an
+// arbitrary moment. Whoever's call has returned must be in every later crash image, and each
+// batch is all-or-nothing.
+
+var twoSetup = lww.Batch{I("x", 1), I("a", 1), S(0)}
+var twoWorkload = []lww.Batch{
+	{I("b", 1), S(1)},
+	{I("a", 2), I("c", 1), S(2)},
+	{D("b"), S(3)},
+}
+var twoSecond = lww.Batch{D("x"), lww.Op{Kind: "S", ID: "w2", V: 1}}
+
+func bodyTwoWriters(k cfg) func(c *drv.Ctx) {
+	return func(c *drv.Ctx) {
+		ed := &execData{k: k}
+		c.Data = ed
+		dir := c.Dir + "/idx"
+		acked, submitted, acked2, submitted2 := 0, 0, 0, 0
+		capture := false
+		seen := map[string]bool{}
+		vrt.Hook = func(label string) {
+			if !capture || !strings.HasPrefix(label, "fs:") {
+				return
+			}
+			img := drv.CaptureDir(dir, label)
+			key := img.Hash + fmt.Sprint(acked, submitted, acked2, submitted2)
+			if seen[key] {
+				return
+			}
+			seen[key] = true
+			img.Tag["acked"], img.Tag["submitted"], img.Tag["acked2"], img.Tag["submitted2"] = acked, submitted, acked2, submitted2
+			ed.images = append(ed.images, img)
+		}
+		defer func() { vrt.Hook = nil }()
+		var idx bleve.Index
+		vrt.Free(func() {
+			var err error
+			idx, err = bleve.NewUsing(dir, bleve.NewIndexMapping(), scorch.Name, scorch.Name, bx.CopyConfig(k.conf))
+			if err != nil {
+				panic(err)
+			}
+			if err := lww.ExecBatch(idx, twoSetup); err != nil {
+				panic(err)
+			}
+			vrt.WaitIdle()
+		})
+		start := make(chan int, 1)
+		var wg vrt.WaitGroup
+		wg.Add(1)
+		vrt.Go(func() { // created last: lowest priority in the default schedule
+			defer wg.Done()
+			vrt.Recv(start)
+			submitted2 = 1
+			if err := lww.ExecBatch(idx, k.second); err != nil {
+				c.Fail("error:batch", "second writer: %v", err)
+				return
+			}
+			acked2 = 1
+		})
+		capture = true
+		vrt.Send(start, 1)
+		for j := 1; j <= len(k.wl); j++ {
+			submitted = j
+			if err := lww.ExecBatch(idx, k.wl[j-1]); err != nil {
+				c.Fail("error:batch", "Batch %d: %v", j, err)
+				break
+			}
+			acked = j
+		}
+		wg.Wait()
+		vrt.Point("fs:end-of-workload")
+		vrt.WaitIdle()
+		vrt.Point("fs:quiescent")
+		capture = false
+		c.Observe(fmt.Sprintf("images=%d", bucket(len(ed.images))))
+		vrt.Free(func() {
+			if err := idx.Close(); err != nil {
+				c.Fail("error:close", "Close: %v", err)
+			}
+		})
 	}
 }
 
@@ -678,10 +805,11 @@ func Scenarios() []drv.Scenario {
 		// workload on the default schedule; thorough: the 5-batch workload with every single deviation,
 		// then two deviations of the restricted class
 		mk(cfg{name: "safe-default-3", nBatch: 3, window: "workload"}, d1r, nil),
-		mk(cfg{name: "safe-aggressive-merge-3", conf: aggressive, nBatch: 3, window: "workload"}, d1r, nil),
+		mk(cfg{name: "safe-aggressive-merge-3", conf: aggressive, nBatch: 3, window: "workload"}, nil, d1r),
 		mk(cfg{name: "unsafe-2-persister-workers-3", conf: unsafe2, unsafe: true, nBatch: 3, window: "workload"}, d1r, nil),
 		{Name: "unsafe-inmemory-merge-window", Body: bodyWindow(cfg{name: "unsafe-inmemory-merge-window", conf: unsafe2, unsafe: true, wl: windowWorkload}), After: after, Quick: d1r, Thorough: d2r, Class: "unsafe"},
 		{Name: "unsafe-flush-group-emptied-during-inmemory-merge", Doc: "four unsafe batches pile up behind the parked persister (two flush groups for two workers); a low-priority delete-only batch obsoletes every document of the first group inside the merge window; crash images at every effect boundary", Body: bodyWindow(cfg{name: "unsafe-flush-group-emptied-during-inmemory-merge", conf: unsafe2, unsafe: true, wl: groupWorkload}), After: after, Quick: d1r, Thorough: d2r, Class: "unsafe"},
+		{Name: "safe-two-writers", Doc: "safe mode, two concurrent writers: three batches of the first, one delete-only batch of a low-priority second writer landing anywhere; crash images at every effect boundary; an acknowledged batch of either writer must be in the recovered state, each batch all-or-nothing", Body: bodyTwoWriters(cfg{name: "safe-two-writers", wl: twoWorkload, second: twoSecond}), After: after, Quick: []drv.Phase{{Bound: 1, Filter: "restricted+"}}, Thorough: d2r, Class: "safe"},
 		{Name: "safe-batch-between-merge-and-purge", Body: bodyPurgeGate(cfg{name: "safe-batch-between-merge-and-purge", conf: aggressive, wl: purgeWorkload}), After: after, Quick: d0, Thorough: d1r, Class: "safe"},
 		mk(cfg{name: "safe-default", nBatch: 5, window: "workload"}, d0, d2r),
 		mk(cfg{name: "safe-aggressive-merge", conf: aggressive, nBatch: 5, window: "workload"}, d0, d2r),
